@@ -521,3 +521,25 @@ func callerName(fr *frame) string {
 	}
 	return s
 }
+
+func init() {
+	externals["internal/stringslite.Clone"] = func(fr *frame, a []value) value { return a[0] }
+	externals["strings.Clone"] = func(fr *frame, a []value) value { return a[0] }
+	externals["unique.Make[string]"] = func(fr *frame, a []value) value { return a[0] }
+}
+
+// globalCell returns the storage cell of a package-level variable.
+func (i *interpreter) globalCell(g *ssa.Global) *value {
+	if r, ok := i.globals[g]; ok {
+		return r
+	}
+	cell := zero(mustDeref(g.Type()))
+	i.globals[g] = &cell
+	return &cell
+}
+
+func init() {
+	externals["reflect.DeepEqual"] = func(fr *frame, a []value) value {
+		return fr.i.concBool(mkScalar(fr.i.deepEqTerm(a[0], a[1], 0), types.Bool))
+	}
+}
